@@ -260,9 +260,9 @@ func c18Cleanup(c *Ctx) *RuleResult {
 				}
 				obj := strings.TrimPrefix(key, "hold:")
 				for _, res := range ret.Results {
-					// returned closure that releases
+					// returned closure that releases (possibly through a local that names it)
 					found := false
-					ast.Inspect(res, func(m ast.Node) bool {
+					ast.Inspect(resolveLocalAlias(u, res), func(m ast.Node) bool {
 						if fl, ok := m.(*ast.FuncLit); ok {
 							ast.Inspect(fl.Body, func(k ast.Node) bool {
 								if _, ok := methodCallOn(k, obj, "release"); ok {
